@@ -38,41 +38,122 @@ ENC = ('func enc(r) { t = typeof(r); if (t == "int") { return "i" . fmtnum(r, "%
 FIELDS = {"bin": ("a", "b"), "un": ("a",), "ter": ("a", "b", "c")}
 OPS = {"bin": A.BINARY, "un": A.UNARY, "ter": A.TERNARY}
 
+INFIX = ("+", "-", "*", "/", "//", "%", "**", ".+", ".-", ".*", "./", "&", "|", "^", "<<", ">>", ">>>")
+# compound assignments of the grammar that are arithmetic (there is no `.+=` and no `min=`)
+OPASSIGN = ("+", "-", "*", "/", "//", "%", "**", "&", "|", "^", "<<", ">>", ">>>")
 
-def op_expr(op):
-    if op in ("+", "-", "*", "/", "//", "%", "**", ".+", ".-", ".*", "./", "&", "|", "^", "<<", ">>", ">>>"):
-        return f"$a {op} $b"
+# How the operands reach the operator (all judged by the same model):
+#   data      DKVP fields, every operator of the family in one map literal, after an is_string() test of each
+#             operand (the conversion of Inf/NaN text needs it) - the inferred-from-data path
+#   touch     DKVP fields, ONE operator per process and nothing reads the operand before the operator does:
+#             type inference of the field happens inside the operator's own dispatch (first touch)
+#   json      the same program, operands as JSON numbers
+#   computed  operands are results of earlier computations (no original text): a local, an oosvar, a map element
+#   opassign  t = $a; t OP= $b with t a local / oosvar / field / map element (13 arithmetic compound assignments)
+#   literal   operands are literals in the DSL text (mlr -n put -f), one expression per cell
+MODES = ("data", "touch", "json", "computed", "opassign", "literal")
+
+
+def op_expr(op, x="$a", y="$b", z="$c"):
+    if op in INFIX:
+        return f"{x} {op} {y}"
     if op in ("pow", "min", "max", "roundm"):
-        return f"{op}($a, $b)"
+        return f"{op}({x}, {y})"
     if op == "neg":
-        return "-$a"
+        return f"-{x}"
     if op == "pos":
-        return "+$a"
+        return f"+{x}"
     if op == "~":
-        return "~ $a"
+        return f"~ {x}"
     if op in ("abs", "ceil", "floor", "round", "sgn"):
-        return f"{op}($a)"
+        return f"{op}({x})"
     if op in A.TERNARY:
-        return f"{op}($a, $b, $c)"
+        return f"{op}({x}, {y}, {z})"
     raise KeyError(op)
 
 
-def program(kind, ops):
+COMPUTED_NAMES = {"a": "a", "b": "@b", "c": "m[3]"}
+LVALUES = ("t", "@t", "$t", "m[1]")
+
+
+def program(kind, ops, mode="data"):
     """Inf/NaN cannot arrive as inferred data (documented: they stay strings unless float() is
     applied), so a string operand is passed through float() first; every other operand is used
     as inferred from the field."""
     lines = [ENC]
-    for n in FIELDS[kind]:
-        lines.append(f"if (is_string(${n})) {{ ${n} = float(${n}) }}")
-    cells = ", ".join(f'"o{k}": enc({op_expr(op)})' for k, op in ops)
+    if mode in ("data", "json"):
+        for n in FIELDS[kind]:
+            lines.append(f"if (is_string(${n})) {{ ${n} = float(${n}) }}")
+        cells = ", ".join(f'"o{k}": enc({op_expr(op)})' for k, op in ops)
+    elif mode == "touch":
+        cells = ", ".join(f'"o{k}": enc({op_expr(op)})' for k, op in ops)
+    elif mode == "computed":
+        # x * 1.0 is x for every double (IEEE), n .+ 0 is n for every int64: the operand keeps its value and
+        # type but is now the output of a computation, held in a local / an oosvar / a map element
+        lines.append("m = {};")
+        for n in FIELDS[kind]:
+            lv = COMPUTED_NAMES[n]
+            lines.append(f"if (is_string(${n})) {{ {lv} = float(${n}) }} elif (is_float(${n})) {{ {lv} = ${n} * 1.0 }} "
+                         f"else {{ {lv} = ${n} .+ 0 }}")
+        names = [COMPUTED_NAMES[n] for n in ("a", "b", "c")]
+        cells = ", ".join(f'"o{k}": enc({op_expr(op, *names)})' for k, op in ops)
+    elif mode == "opassign":
+        for n in FIELDS[kind]:
+            lines.append(f"if (is_string(${n})) {{ ${n} = float(${n}) }}")
+        lines.append("m = {}; o = {};")
+        for k, op in ops:
+            lv = LVALUES[k % len(LVALUES)]
+            lines.append(f"{lv} = $a; {lv} {op}= $b; o[{k}] = enc({lv});")
+        cells = ", ".join(f'"o{k}": o[{k}]' for k, op in ops)
+    else:
+        raise KeyError(mode)
     lines.append('$* = {"i": $i, ' + cells + "};")
     return "\n".join(lines)
 
 
-def spell(x, hexy=False):
+def literal(x, code=0):
+    """DSL literal for an operand.  A negative number is written as a parenthesised unary minus (the
+    documented precedence puts ** above unary minus); -2^63 has no decimal literal (9223372036854775808 is
+    beyond int64, hence a float) and is written in hex."""
     if A.is_int(x):
-        if hexy:
+        if x == MIN:
+            return "0x8000000000000000"
+        body = {1: "0x%x", 3: "0b{:b}", 4: "0o{:o}"}.get(code)
+        if body is None:
+            t = str(abs(x))
+        elif "%" in body:
+            t = body % abs(x)
+        else:
+            t = body.format(abs(x))
+        return f"(-{t})" if x < 0 else t
+    t = repr(abs(x))
+    return f"(-{t})" if math.copysign(1, x) < 0 else t
+
+
+def literal_program(kind, ops, rows, idx, spells):
+    lines = [ENC, "end {"]
+    for i in idx:
+        lits = [literal(x, spells[i][j] if spells else 0) for j, x in enumerate(rows[i])]
+        cells = ' . "," . '.join(f'"o{k}=" . enc({op_expr(op, *lits)})' for k, op in ops)
+        lines.append(f'print "i={i}," . {cells};')
+    lines.append("}")
+    return "\n".join(lines) + "\n"
+
+
+# spelling codes of an int operand in data text
+SP_DEC, SP_HEX2C, SP_HEXSM, SP_BIN, SP_OCT = 0, 1, 2, 3, 4
+
+
+def spell(x, code=0):
+    if A.is_int(x):
+        if code == SP_HEX2C or code is True:
             return "0x%x" % (x % (1 << 64)) if x < 0 else "0x%x" % x
+        if code == SP_HEXSM:
+            return ("-0x%x" % -x) if x < 0 else "0x%x" % x
+        if code == SP_BIN and x != MIN:          # no two's-complement reading is documented for 0b / 0o
+            return ("-0b{:b}" if x < 0 else "0b{:b}").format(abs(x))
+        if code == SP_OCT and x != MIN:
+            return ("-0o{:o}" if x < 0 else "0o{:o}").format(abs(x))
         return str(x)
     if x != x:
         return "NaN"
@@ -83,17 +164,30 @@ def spell(x, hexy=False):
     return repr(x)
 
 
-def row_text(kind, i, row, hexmask=0):
+def row_text(kind, i, row, sp=None):
     parts = [f"i={i}"]
     for j, n in enumerate(FIELDS[kind]):
-        parts.append(f"{n}={spell(row[j], bool(hexmask >> j & 1) and A.is_int(row[j]))}")
+        parts.append(f"{n}={spell(row[j], sp[j] if sp else 0)}")
     return ",".join(parts)
 
 
-def shell_repro(kind, op, row, hexmask=0):
-    data = row_text(kind, 0, row, hexmask).split(",", 1)[1]
+def row_json(kind, i, row):
+    parts = [f'"i": {i}']
+    for j, n in enumerate(FIELDS[kind]):
+        x = row[j]
+        parts.append(f'"{n}": ' + (spell(x) if A.is_int(x) or A.finite(x) else '"' + spell(x) + '"'))
+    return "{" + ", ".join(parts) + "}"
+
+
+def shell_repro(kind, op, row, sp=None, mode="data"):
+    if mode == "literal":
+        lits = [literal(x, sp[j] if sp else 0) for j, x in enumerate(row)]
+        return f"mlr -n put 'end {{ r = {op_expr(op, *lits)}; print typeof(r) . \" \" . r }}'"
+    data = row_text(kind, 0, row, sp).split(",", 1)[1]
     pre = "".join(f"if (is_string(${n})) {{${n} = float(${n})}} " for j, n in enumerate(FIELDS[kind])
                   if not A.is_int(row[j]) and not A.finite(row[j]))
+    if mode == "opassign":
+        return f"echo '{data}' | mlr put '{pre}$r = $a; $r {op}= $b; $t = typeof($r)'"
     return f"echo '{data}' | mlr put '{pre}$r = {op_expr(op)}; $t = typeof($r)'"
 
 
@@ -116,10 +210,31 @@ class Died(Exception):
         self.r = r
 
 
-def run_rows(kind, ops, rows, idx, hexmasks):
+class Ctx:
+    """How one batch is delivered: mode, per-row spelling codes, resource caps."""
+    __slots__ = ("mode", "spells")
+
+    def __init__(self, mode="data", spells=None):
+        self.mode = mode
+        self.spells = spells
+
+
+def invocation(kind, ops, rows, idx, ctx):
+    """(argv, stdin, files) of the process that evaluates ops over rows[idx]."""
+    sp = ctx.spells
+    if ctx.mode == "literal":
+        return (["-n", "put", "-f", "prog.mlr"], "", {"prog.mlr": literal_program(kind, ops, rows, idx, sp)})
+    if ctx.mode == "json":
+        stdin = "[\n" + ",\n".join(row_json(kind, i, rows[i]) for i in idx) + "\n]\n"
+        return (["--ijson", "--odkvp", "put", program(kind, ops, "json")], stdin, None)
+    stdin = "\n".join(row_text(kind, i, rows[i], sp[i] if sp else None) for i in idx) + "\n"
+    return (["--idkvp", "--odkvp", "put", program(kind, ops, ctx.mode)], stdin, None)
+
+
+def run_rows(kind, ops, rows, idx, ctx, cpu_s=12):
     """One mlr process over rows[idx]; returns {row index: {op index: got}} or raises Died."""
-    stdin = "\n".join(row_text(kind, i, rows[i], hexmasks[i] if hexmasks else 0) for i in idx) + "\n"
-    r = R.mlr(["--idkvp", "--odkvp", "put", program(kind, ops)], stdin=stdin, cpu_s=30, watchdog=120.0)
+    argv, stdin, files = invocation(kind, ops, rows, idx, ctx)
+    r = R.mlr(argv, stdin=stdin, files=files, cpu_s=cpu_s, watchdog=120.0)
     if not r.ok:
         raise Died(r)
     out = {}
@@ -136,16 +251,22 @@ def run_rows(kind, ops, rows, idx, hexmasks):
 
 
 def death_label(r):
-    if r.verdict in ("slow", "deadlock"):
+    """cpu / output-cap / deadlock of a process that was given ONE row and ONE operator is a hang of that
+    cell (a violation: neither a number nor an error value was produced); only the wall-clock watchdog
+    ("slow": may be the machine) stays inconclusive."""
+    if r.verdict == "slow":
+        return "slow"
+    if r.verdict in ("deadlock", "cpu", "output-cap"):
         return "hang"
-    if r.verdict in ("cpu", "output-cap"):
-        return r.verdict
     if r.crashed():
         return "crash"
     return "abort"
 
 
 def death_text(r):
+    if r.verdict in ("deadlock", "cpu", "output-cap", "slow"):
+        return {"cpu": "CPU limit exhausted (does not terminate)", "output-cap": "unbounded output",
+                "deadlock": "all goroutines blocked", "slow": "wall-clock watchdog"}[r.verdict]
     for line in r.err.splitlines():
         if line.startswith("panic:") or line.startswith("fatal error:") or line.startswith("mlr:"):
             return line[:200]
@@ -156,15 +277,23 @@ def row_class(row):
     return tuple(A.cls(x) for x in row)
 
 
-def recover(kind, opk, rows, idx, hexmasks, table, res):
+HANG_CELLS_PER_OP = 6     # every confirmed hanging cell costs its CPU cap; stop localising after that many
+
+
+def recover(kind, opk, rows, idx, ctx, table, res):
     """A process running the single operator opk over rows[idx] died: find every cell that
     kills it.  Recursive halving; once a killing row is known, rows of the same operand class
     are tried one by one (they usually all die, and a process can only report its first)."""
     k, op = opk
     bad_classes = set()
+    hangs = 0
     work = [list(idx)]
     while work:
         chunk = work.pop()
+        if hangs >= HANG_CELLS_PER_OP:
+            for i in chunk:
+                table.setdefault(i, {})[k] = ("died", "unlocalised", "not localised (enough hanging cells found)", "")
+            continue
         if len(chunk) > 1 and bad_classes:
             sus = [i for i in chunk if row_class(rows[i]) in bad_classes]
             if sus:
@@ -175,14 +304,17 @@ def recover(kind, opk, rows, idx, hexmasks, table, res):
                     work.append([i])
                 continue
         try:
-            got = run_rows(kind, [opk], rows, chunk, hexmasks)
+            got = run_rows(kind, [opk], rows, chunk, ctx, cpu_s=6)
             bump(res, "recovery_runs")
             for i in chunk:
                 table.setdefault(i, {})[k] = got[i][k]
         except Died as d:
             bump(res, "recovery_runs")
             if len(chunk) == 1:
-                table.setdefault(chunk[0], {})[k] = ("died", death_label(d.r), death_text(d.r))
+                lab = death_label(d.r)
+                if lab in ("hang", "slow"):
+                    hangs += 1
+                table.setdefault(chunk[0], {})[k] = ("died", lab, death_text(d.r), d.r.verdict)
                 bad_classes.add(row_class(rows[chunk[0]]))
             else:
                 mid = len(chunk) // 2
@@ -190,36 +322,47 @@ def recover(kind, opk, rows, idx, hexmasks, table, res):
                 work.append(chunk[:mid])
 
 
-def eval_ops(kind, ops, rows, idx, hexmasks, table, res):
+def eval_ops(kind, ops, rows, idx, ctx, table, res):
     """Fill table[row][op] for the given operators and rows; when the process dies, halve the
     operator set until the dying operator(s) are alone, then localise the rows."""
     try:
-        got = run_rows(kind, ops, rows, idx, hexmasks)
+        got = run_rows(kind, ops, rows, idx, ctx)
         for i in idx:
             table.setdefault(i, {}).update(got[i])
         return
     except Died:
         bump(res, "dying_processes")
     if len(ops) == 1:
-        recover(kind, ops[0], rows, idx, hexmasks, table, res)
+        recover(kind, ops[0], rows, idx, ctx, table, res)
         return
     mid = len(ops) // 2
-    eval_ops(kind, ops[:mid], rows, idx, hexmasks, table, res)
-    eval_ops(kind, ops[mid:], rows, idx, hexmasks, table, res)
+    eval_ops(kind, ops[:mid], rows, idx, ctx, table, res)
+    eval_ops(kind, ops[mid:], rows, idx, ctx, table, res)
 
 
-def evaluate(kind, rows, hexmasks, res):
+LITERAL_ROWS_PER_PROCESS = 250
+
+
+def evaluate(kind, rows, ctx, res, opsel=None):
     """Rows whose last operand is the int 0 (zero divisor / zero modulus) run in a process of
     their own: that is only scheduling (a dying process takes its whole batch with it), every
     cell is still evaluated and judged the same way."""
-    ops = list(enumerate(OPS[kind]))
+    ops = [(k, op) for k, op in enumerate(OPS[kind]) if opsel is None or k in opsel]
     zero = [i for i, row in enumerate(rows) if kind != "un" and A.is_int(row[-1]) and row[-1] == 0]
     zs = set(zero)
     main = [i for i in range(len(rows)) if i not in zs]
     table = {}
     for part in (main, zero):
-        if part:
-            eval_ops(kind, ops, rows, part, hexmasks, table, res)
+        if not part:
+            continue
+        if ctx.mode == "touch":
+            for opk in ops:                       # one operator per process: each is the first to touch the fields
+                eval_ops(kind, [opk], rows, part, ctx, table, res)
+        elif ctx.mode == "literal":
+            for lo in range(0, len(part), LITERAL_ROWS_PER_PROCESS):
+                eval_ops(kind, ops, rows, part[lo:lo + LITERAL_ROWS_PER_PROCESS], ctx, table, res)
+        else:
+            eval_ops(kind, ops, rows, part, ctx, table, res)
     return table
 
 
@@ -267,43 +410,62 @@ def rowkey(kind, row):
 SIG_CAP = 4   # witnesses kept per (case, signature); the rest are only counted
 
 
-def check_rows(kind, rows, res, hexmasks=None):
-    table = evaluate(kind, rows, hexmasks, res)
+def check_rows(kind, rows, res, ctx=None, opsel=None):
+    ctx = ctx or Ctx()
+    mode = ctx.mode
+    table = evaluate(kind, rows, ctx, res, opsel)
     ops = OPS[kind]
     seen_sigs = {}
     ntk = []
     maxpow = 0
+    maxpow_ratio = 0.0
+    ncells = 0
     for i, row in enumerate(rows):
         if nontrivial(kind, row):
             ntk.append(rowkey(kind, row))
         a = row[0]
         b = row[1] if len(row) > 1 else None
         c = row[2] if len(row) > 2 else None
+        sp = ctx.spells[i] if ctx.spells else None
         for k, op in enumerate(ops):
+            if opsel is not None and k not in opsel:
+                continue
+            ncells += 1
             got = table.get(i, {}).get(k)
             if got is None:
                 res["inconc"] += 1
                 continue
             bump(res, "cells")
             bump(res, "cells:" + op)
+            bump(res, "cells_mode:" + mode)
             exp = A.expect(op, a, b, c)
             if exp.anynum:
                 bump(res, "cells_nocrash_only")
+            elif exp.anyfloat:
+                bump(res, "cells_type_only")
             sig = None
             if got[0] == "died":
-                if got[1] == "hang":
+                if got[1] in ("slow", "unlocalised"):
                     res["inconc"] += 1
                     continue
                 sig = {"kind": got[1], "op": op, "a": A.cls(a), "b": A.cls(b), "c": A.cls(c),
                        "cell": f"{op}({A.cls(a)},{A.cls(b)},{A.cls(c)})"}
-                what = f"{op_text(op, row)} kills the process: {got[2]}"
+                if got[1] == "hang":
+                    sig["verdict"] = got[3]
+                    what = f"{op_text(op, row)} does not terminate: {got[2]} (single row, single operator)"
+                else:
+                    what = f"{op_text(op, row)} kills the process: {got[2]}"
                 gottxt = got[2]
             else:
+                if op == "*" and exp.note == "times-band" and got[0] == "float":
+                    bump(res, "times_band_float_for_a_product_that_fits")
                 if op in ("**", "pow") and got[0] == "float" and exp.floats and not exp.anynum:
                     d = min((A.ulp_distance(got[1], y) for y in exp.floats
                              if A.ulp_distance(got[1], y) is not None), default=None)
                     if d is not None and d <= exp.ulps:
                         maxpow = max(maxpow, d)
+                        if not A.is_int(b) and abs(b) >= 1024 and A.finite(b):
+                            maxpow_ratio = max(maxpow_ratio, d / abs(b))
                 v = A.judge(exp, got)
                 if v is not None:
                     big = (any(A.is_int(x) and abs(x) > BIG for x in row) or any(abs(x) > BIG for x in exp.ints)
@@ -314,24 +476,28 @@ def check_rows(kind, rows, res, hexmasks=None):
                     what = f"{op_text(op, row)} gives {gottxt}; documented: {exp.describe()} [{v[1]}]"
             if sig is None:
                 continue
+            if mode != "data":
+                sig["delivery"] = mode
+                what += f" [operands delivered as: {mode}]"
             sk = tuple(sorted(sig.items()))
             n = seen_sigs.get(sk, 0)
             seen_sigs[sk] = n + 1
             if n >= SIG_CAP:
                 bump(res, "violations_same_signature_not_listed")
                 continue
-            hm = hexmasks[i] if hexmasks else 0
-            add_violation(res, sig, what, {
-                "argv": ["--idkvp", "--odkvp", "put", program(kind, [(k, op)])],
-                "stdin": row_text(kind, 0, row, hm) + "\n",
-                "shell": shell_repro(kind, op, row, hm),
-                "operands": [spell(x) for x in row],
-                "expected": exp.describe(), "got": gottxt,
-            })
+            one = Ctx(mode, {0: sp} if sp else None)
+            argv, stdin, files = invocation(kind, [(k, op)], {0: row}, [0], one)
+            det = {"argv": argv, "stdin": stdin, "shell": shell_repro(kind, op, row, sp, mode),
+                   "operands": [spell(x) for x in row], "expected": exp.describe(), "got": gottxt}
+            if files:
+                det["files"] = files
+            add_violation(res, sig, what, det)
     res["nontrivial_keys"] = ntk
-    res["evals"] = len(rows) * len(ops)
+    res["evals"] = ncells
     if maxpow:
         res["stats"]["max_pow_ulp_distance"] = [maxpow]   # set-union in the harness; max taken in run()
+    if maxpow_ratio:
+        res["stats"]["max_pow_ulp_per_unit_exponent"] = [round(maxpow_ratio, 4)]
     return table
 
 
@@ -381,6 +547,38 @@ def grid():
               18446744073709551616.0, 4294967296.0, 1e19, 123456.789, -7.25,
               INF, -INF, NAN]
     return ints, floats
+
+
+def pow2_set():
+    """+-(2^k + d) for every k in 0..64 and d in -1, 0, 1 that fits int64 (the quantifier's "2^k+-1 for k<=64")."""
+    g = set()
+    for k in range(0, 65):
+        for d in (-1, 0, 1):
+            for v in ((1 << k) + d, -((1 << k) + d)):
+                if A.fits(v):
+                    g.add(v)
+    return sorted(g)
+
+
+def pow2_floats():
+    out = []
+    for k in (24, 31, 32, 52, 53, 62, 63, 64):
+        x = 2.0 ** k
+        out += [x, -x, math.nextafter(x, INF), math.nextafter(x, 0.0), x + 0.5 if k < 52 else x]
+    return sorted(set(out))
+
+
+def coarse_grid():
+    ints = [0, 1, -1, 2, -2, 3, 7, -10, 63, 64, 65, MAX, MIN, MAX - 1, MIN + 1, 3037000500, -3037000500,
+            1 << 31, 1 << 32, (1 << 24) + 1, (1 << 53) + 1, -((1 << 53) + 1), 1 << 62, -(1 << 62),
+            4611686018427387905, 9223372036854775296]
+    floats = [0.0, -0.0, 0.5, -1.5, 2.5, 1e308, 5e-324, 9007199254740992.0, 9223372036854775808.0,
+              -9223372036854775808.0, 18446744073709551616.0, 123456.789, INF, -INF, NAN]
+    return ints + floats
+
+
+MNEG = [-1, -2, -3, -7, -10, -64, -65537, -2147483647, -4294967296, -3037000500, -1000000007,
+        -4611686018427387904, -9223372036854775783, MIN + 1, MIN]
 
 
 def subgrid_ternary():
@@ -498,13 +696,40 @@ def mulband_pairs(s_lo, s_hi):
 # ------------------------------------------------------------------------------------------
 # workers (one case = one batch = one mlr process unless something dies)
 
-def _finish(case, kind, rows, hexmasks=None):
+def auto_spells(kind, rows, frac=0.15):
+    """Deterministic per-row spelling of int operands in the data text: `frac` of them as 0x two's-complement,
+    -0x sign-magnitude, 0b or 0o (reference-main-arithmetic.md: "Anything scannable as int, e.g 123 or 0xabcd
+    ... 0o ... 0b")."""
+    out = []
+    for row in rows:
+        rng = random.Random(rowkey(kind, row))
+        out.append(tuple((rng.choice((SP_HEX2C, SP_HEXSM, SP_BIN, SP_OCT)) if (A.is_int(x) and rng.random() < frac)
+                          else SP_DEC) for x in row))
+    return out
+
+
+def _finish(case, kind, rows, spells=None, mode="data", opsel=None):
     res = case_result("c07:" + hashlib.sha1(repr(case).encode()).hexdigest()[:16], nontrivial=False)
-    check_rows(kind, rows, res, hexmasks)
+    if mode in ("touch", "literal"):
+        # Inf/NaN have no literal and as field text they are strings until float() is applied (which would be
+        # the first touch): not deliverable in these modes
+        keep = [i for i, row in enumerate(rows) if all(A.is_int(x) or A.finite(x) for x in row)]
+        rows = [rows[i] for i in keep]
+        if spells:
+            spells = [spells[i] for i in keep]
+    if mode == "json":
+        spells = None
+    elif spells is None:
+        spells = auto_spells(kind, rows)
+    if mode == "literal" and spells:
+        spells = [tuple(c if c in (SP_HEX2C, SP_BIN, SP_OCT) else SP_DEC for c in sp) for sp in spells]
+    check_rows(kind, rows, res, Ctx(mode, spells), opsel)
     if rows:
-        r0 = rows[len(rows) // 2]
-        res["sample"] = {"monitor": case["mon"], "family": kind, "rows_in_batch": len(rows),
-                         "one_row": [spell(x) for x in r0], "operators": OPS[kind]}
+        j = len(rows) // 2
+        r0 = rows[j]
+        res["sample"] = {"monitor": case["mon"], "family": kind, "rows_in_batch": len(rows), "delivery": mode,
+                         "one_row": [spell(x, spells[j][n] if spells else 0) for n, x in enumerate(r0)],
+                         "operators": [op for k, op in enumerate(OPS[kind]) if opsel is None or k in opsel]}
     return res
 
 
@@ -515,13 +740,43 @@ def w_grid(case):
     return _finish(case, "bin", rows)
 
 
+def w_pow2(case):
+    P = pow2_set()
+    Q = P + (pow2_floats() if case.get("floats") else [])
+    rows = [(a, b) for a in Q[case["lo"]:case["hi"]] for b in Q]
+    return _finish(case, "bin", rows)
+
+
 def w_unary(case):
     ints, floats = grid()
-    rows = [(a,) for a in ints + floats]
+    rows = [(a,) for a in ints + floats + pow2_set() + pow2_floats()]
     rng = random.Random(case["seed"])
     rows += [(rand_operand(rng, 0.4),) for _ in range(case["n"])]
-    masks = [0] * (len(ints) + len(floats)) + [1 if rng.random() < 0.15 else 0 for _ in range(case["n"])]
-    return _finish(case, "un", rows, masks)
+    return _finish(case, "un", rows)
+
+
+def rand_triples(rng, n):
+    P = pow2_set()
+    rows = []
+    for _ in range(n):
+        a, b = rand_int(rng), rand_int(rng)
+        q = rng.random()
+        if q < 0.7:
+            m = rng.getrandbits(rng.randint(1, 63)) + 1
+        elif q < 0.8:
+            m = MAX - rng.randint(0, 100)
+        elif q < 0.9:
+            m = -(rng.getrandbits(rng.randint(1, 63)) + 1)
+        else:
+            m = rand_operand(rng, 0.3)
+        if rng.random() < 0.3:
+            b = min(MAX, abs(b))
+        if rng.random() < 0.25:
+            a, b = rng.choice(P), rng.choice(P)
+            if rng.random() < 0.5:
+                m = rng.choice(P)
+        rows.append((a, b, m))
+    return rows
 
 
 def w_ternary(case):
@@ -529,30 +784,18 @@ def w_ternary(case):
     if case["part"] == "pos":
         ms = mpos[case["lo"]:case["hi"]]
         rows = [(a, b, m) for m in ms for a in ab for b in ab]
+    elif case["part"] == "neg":
+        rows = [(a, b, m) for m in MNEG[case["lo"]:case["hi"]] for a in ab for b in ab]
     elif case["part"] == "other":
         rows = [(a, b, m) for m in mother[case["lo"]:case["hi"]] for a in absmall for b in absmall]
     else:
-        rng = random.Random(case["seed"])
-        rows = []
-        for _ in range(case["n"]):
-            a, b = rand_int(rng), rand_int(rng)
-            q = rng.random()
-            if q < 0.8:
-                m = rng.getrandbits(rng.randint(1, 63)) + 1
-            elif q < 0.9:
-                m = MAX - rng.randint(0, 100)
-            else:
-                m = rand_operand(rng, 0.3)
-            if rng.random() < 0.3:
-                b = min(MAX, abs(b))
-            rows.append((a, b, m))
+        rows = rand_triples(random.Random(case["seed"]), case["n"])
     return _finish(case, "ter", rows)
 
 
-def w_random(case):
-    rng = random.Random(case["seed"])
-    rows, masks = [], []
-    for _ in range(case["n"]):
+def rand_pairs(rng, n):
+    rows = []
+    for _ in range(n):
         q = rng.random()
         if q < 0.55:
             row = (rand_int(rng), rand_int(rng))
@@ -563,8 +806,15 @@ def w_random(case):
         else:
             row = (rand_float(rng), rand_float(rng))
         rows.append(row)
-        masks.append(rng.getrandbits(2) if rng.random() < 0.1 else 0)
-    return _finish(case, "bin", rows, masks)
+    return rows
+
+
+def w_random(case):
+    rng = random.Random(case["seed"])
+    rows = rand_pairs(rng, case["n"])
+    spells = [tuple(rng.choice((SP_HEX2C, SP_HEX2C, SP_HEXSM, SP_BIN, SP_OCT)) if rng.random() < 0.5 else SP_DEC
+                    for _ in row) if rng.random() < 0.2 else (SP_DEC, SP_DEC) for row in rows]
+    return _finish(case, "bin", rows, spells)
 
 
 def w_near(case):
@@ -588,6 +838,54 @@ def w_around(case):
     return _finish(case, "bin", rows)
 
 
+def pow_near_one(rng, n):
+    """x = 1 +- d and a large exponent y with |y * d| < 700: the only place where a huge exponent has a finite,
+    non-trivial power; this is where the exponent-proportional tolerance of ** / pow is actually exercised."""
+    rows = []
+    while len(rows) < n:
+        e = rng.uniform(2, 15.5)
+        d = 10.0 ** (-e) * rng.uniform(1, 10)
+        x = 1.0 + d if rng.random() < 0.6 else 1.0 - d
+        t = rng.uniform(-690, 690)
+        y = t / d
+        if abs(y) < 64:
+            continue
+        if rng.random() < 0.5 and abs(y) < 2.0 ** 62:
+            y = int(y)
+        rows.append((x, y))
+    return rows
+
+
+def w_pownear1(case):
+    rng = random.Random(case["seed"])
+    ks = [k for k, op in enumerate(A.BINARY) if op in ("**", "pow")]
+    return _finish(case, "bin", pow_near_one(rng, case["n"]), opsel=set(ks))
+
+
+def w_mode(case):
+    """The same model, the operands delivered another way (see MODES)."""
+    mode, kind = case["mode"], case["kind"]
+    rng = random.Random(case["seed"])
+    cg = coarse_grid()
+    opsel = None
+    if kind == "bin":
+        rows = [(a, b) for a in cg for b in cg] if case.get("cross") else []
+        rows += rand_pairs(rng, case["n"])
+        rows += [tuple(r) for r in near_pairs(rng, case["n"] // 4)]
+        if mode == "opassign":
+            opsel = {k for k, op in enumerate(A.BINARY) if op in OPASSIGN}
+    elif kind == "un":
+        ints, floats = grid()
+        rows = [(a,) for a in ints + floats] + [(rand_operand(rng, 0.4),) for _ in range(case["n"])]
+    else:
+        sm = [0, 1, -1, 7, MAX, MIN, 4294967297, 3037000500, 2.5]
+        rows = [(a, b, m) for a in sm for b in sm for m in (1, 7, 10, MAX, 4294967311, -7, 0, 7.0)] if case.get("cross") else []
+        rows += rand_triples(rng, case["n"])
+    if "op" in case:                                # first-touch rotation: this process family runs ONE operator
+        opsel = {case["op"]}
+    return _finish(case, kind, rows, mode=mode, opsel=opsel)
+
+
 # ------------------------------------------------------------------------------------------
 
 def run(chk):
@@ -595,50 +893,78 @@ def run(chk):
     want = lambda name: (only is None) or (name in only)
     ints, floats = grid()
     ng = len(ints) + len(floats)
+    P = pow2_set()
     seed = f"{chk.seed}/C07/{chk.tier}"
 
     chk.rule = (
         "cases: (grid) the full cross product G x G of a boundary grid G (|G|=%d: 0, +-1..3, +-2^k and "
         "+-(2^k+-1) for k in 7,8,15,16,31,32,52,53,62, +-(2^63-1), -2^63, integer roots of 2^63, 2^63/3, the "
         "1024-band below 2^63, 2^53+-1, and %d floats incl. +-0.0, +-Inf, NaN, denormal, 1e308, 2^53, 2^63, 2^64) "
-        "for 21 binary operators; (unary) G + random operands for 8 unary operators; (ternary) 30x30 operands x "
-        "16 positive moduli + 8x8 x 14 non-positive/float moduli + random triples for madd/msub/mmul/mexp; (random) "
-        "seeded int64/float64 pairs (uniform bits, log-uniform magnitude, near-boundary, small); (near) pairs built "
+        "for 21 binary operators; (pow2) P x P for P = all +-(2^k+d), k=0..64, d in -1,0,1 that fit int64 (|P|=%d; "
+        "thorough: plus the doubles 2^k and their neighbours); (unary) G + P + random operands for 8 unary "
+        "operators; (ternary) 30x30 operands x 16 positive moduli and x 15 negative moduli + 8x8 x 14 zero/float "
+        "moduli + random triples (10%% negative moduli, 25%% drawn from P) for madd/msub/mmul/mexp; (random) seeded "
+        "int64/float64 pairs (uniform bits, log-uniform magnitude, near-boundary, small); (near) pairs built "
         "backwards from a result within 3000 of +-2^63 / +-2^53 for + - * / **; (mulband) multiplier pairs s*t just "
-        "beyond 2^63 including those the documented double-product overflow test cannot see; (around, thorough) "
-        "a=B+i, b=j for |i|,|j|<=128 around 21 boundaries B. One evaluation = one (operand row, operator) cell. "
+        "beyond 2^63 including those the documented double-product overflow test cannot see; (pownear1) x = 1+-d "
+        "with exponents up to 7e17 whose power is finite; (touch, json, computed, opassign, literal) a coarse "
+        "41x41 grid + random + near-overflow pairs (and unary / ternary samples) delivered as first-touched fields "
+        "(one operator per process), JSON numbers, computed intermediates in a local / oosvar / map element, "
+        "through the 13 arithmetic compound assignments on local / oosvar / field / map-element lvalues, and as DSL "
+        "literals; (around, thorough) a=B+i, b=j for |i|,|j|<=128 around 21 boundaries B. 15%% of int operands in "
+        "data text are spelled 0x (two's complement or -0x), 0b or 0o. One evaluation = one (operand row, "
+        "operator) cell. "
         "A row is non-trivial when an operand is 0 / -2^63 / 2^63-1 / -0.0 / Inf / NaN, or int and float are mixed, "
         "or an operand or the exact sum/difference/product/power lies within 2^11 of +-2^63 or +-2^53; distinct by "
-        "hash of (family, operand tuple)." % (ng, len(floats)))
+        "hash of (family, operand tuple)." % (ng, len(floats), len(P)))
     chk.assumptions = [
-        "Operands are int64 or float64 values delivered as DKVP field text (decimal ints, 10% of random ints as 0x "
-        "two's-complement hex; floats as shortest round-trip decimal); Inf/NaN are delivered as the strings "
+        "Operands are int64 or float64 values delivered as DKVP field text (ints decimal, or - 15% - as 0x "
+        "two's-complement hex, -0x sign-magnitude hex, 0b, 0o: reference-main-arithmetic.md 'Anything scannable as "
+        "int'; -2^63 only decimal or hex; floats as shortest round-trip decimal), as JSON numbers, as DSL literals "
+        "(negative numbers as parenthesised unary minus because ** binds tighter; -2^63 as 0x8000000000000000 "
+        "because the decimal literal 9223372036854775808 is beyond int64), or as computed values (n .+ 0 for ints, "
+        "x * 1.0 for floats: identity on value and type). Inf/NaN are delivered as the strings "
         "Inf/-Inf/NaN and converted with float(), because reference-main-data-types.md documents that such field "
-        "values stay strings unless float() is applied.",
+        "values stay strings unless float() is applied; they are not delivered as literals or first-touch fields.",
         "Results are read as typeof(r) and fmtnum(r,\"%d\") (ints) / fmtnum(r,\"%.17le\") (floats, 18 significant "
         "digits identify a double); float results are compared by bit pattern (NaN == NaN).",
-        "* : documented tolerance (reference-main-arithmetic.md): a float result is accepted whenever |double(a)*"
-        "double(b)| > 9223372036854774784 even if the exact product fits; the exact int is always accepted; a wrapped "
-        "int never.",
+        "* : documented tolerance (reference-main-arithmetic.md: 'Miller checks for overflow in 64-bit integer "
+        "multiplication by seeing whether the absolute value of the double-precision product exceeds ... "
+        "9223372036854774784'; Miller's own regression case int64-io/0004 pins 0x7ffffffffffffe00 * 1 = float): a "
+        "float result is accepted whenever |double(a)*double(b)| > 9223372036854774784 even if the exact product "
+        "fits (e.g. 9223372036854775807 * 1 = 9223372036854775808.0; counted in "
+        "times_band_float_for_a_product_that_fits); the exact int is always accepted; a wrapped int never.",
         "On int64 overflow of + - * / // ** the float may be either the double operation on the converted operands or "
         "the correctly rounded exact result (the docs only say 'converts to float').",
         "** and pow on floats / overflowing ints: Go's math.Pow is not correctly rounded; results within %d ulp of "
-        "C/IEEE pow() are accepted, plus 4 ulp per unit of |exponent| because Go's repeated-squaring error grows "
-        "with the exponent (reference-dsl-operators.md: functions are pass-throughs to the Go library); the largest "
-        "distance observed is reported; subnormal bases/results are not compared." % A.POW_ULPS,
+        "C/IEEE pow() are accepted, plus %.2f ulp per unit of |exponent| (the worst case of repeated squaring is "
+        "|y| * 2^-53 relative = |y|/2..|y| ulp; reference-dsl-operators.md: functions are pass-throughs to the Go "
+        "library); the largest distance observed and the largest distance per unit of exponent are reported; "
+        "subnormal bases/results are not compared." % (A.POW_ULPS, A.POW_ULPS_PER_UNIT),
         "// and % with a float operand: floor(x/y) and x - y*floor(x/y) or Python's x//y, x%y are all accepted "
         "(the docs say 'pythonic' without defining the float case); ./ with a float operand: quotient with or "
-        "without truncation; the sign of a zero float result of // % ./ ceil floor round sgn roundm min max is not "
-        "compared.",
+        "without truncation; the sign of a zero FLOAT result of // % ./ ceil floor round sgn roundm min max is not "
+        "compared (an int 0 is never accepted for a float).",
         "Only 'no crash, result is a number or an error value' is required (statement's last sentence, docs silent) "
-        "for: zero divisor of // % ./ roundm, modulus <= 0 or negative exponent or float operand of madd/msub/mmul/"
-        "mexp, shift counts outside 0..63, float operands of & | ^ ~ << >> >>>, NaN through min/max/sgn, "
-        "% with Inf/NaN, roundm overflow.",
+        "for: int zero divisor of // % ./ roundm, modulus 0 or float operand of madd/msub/mmul/mexp, shift counts "
+        "outside 0..63, float operands of & | ^ ~ << >> >>>. Only 'a float or an error value, never an int' (type "
+        "claim 'mixed int/float operations are double operations') for: float zero divisor of // % roundm, % with "
+        "Inf/NaN or an overflowing quotient, roundm with Inf/NaN.",
+        "Negative modulus of madd/msub/mmul/mexp (help: 'a + b mod m (integers)'): the exact residue with the sign of "
+        "the modulus (pythonic, as the docs define %), the exact residue modulo |m|, or an error value; negative "
+        "exponent of mexp: the modular inverse power (either convention) or an error value. Nothing else.",
+        "NaN through min/max: NaN, or the other operand (as float or in its own type), or an error; sgn(NaN): NaN, "
+        "a float zero or an error.",
         "% follows the property statement (sign of the divisor, as Python), which for a positive divisor equals the "
         "docs' 'never negative'.",
         "abs(-2^63): the int -2^63 (int-preserving, as documented for abs) or the float 2^63 are both accepted.",
-        "min/max of int and float: the numerically larger/smaller operand as either int or float; operands equal "
-        "as doubles are interchangeable. roundm on ints: nearest multiple, either neighbour on an exact tie.",
+        "min/max with a float operand: the float of the winning operand, or the winning operand itself as an int "
+        "when it IS an int; operands equal as doubles are interchangeable; an integral float winner is never an "
+        "int. roundm on ints: help 'round($x/$m)*$m' on the exact quotient, halves away from zero (as round()); "
+        "when that multiple is beyond int64: its float (4 ulp) or an error value.",
+        "A cell is a hang (violation) when the process given that ONE row and ONE operator exhausts its CPU cap "
+        "(6 s; a healthy cell takes microseconds), produces unbounded output or deadlocks; only the wall-clock "
+        "watchdog verdict 'slow' and batches that could not be bisected stay inconclusive.",
         "Transcendental functions, bitcount, msub-style functions on strings, and .+ on non-numbers are outside the "
         "statement and not exercised here.",
     ]
@@ -647,11 +973,18 @@ def run(chk):
         step = 4 if chk.quick() else 2
         cases = [{"mon": "grid", "lo": lo, "hi": min(ng, lo + step)} for lo in range(0, ng, step)]
         chk.pmap(w_grid, cases, label="grid GxG")
+    if want("pow2"):
+        fl = not chk.quick()
+        nq = len(P) + (len(pow2_floats()) if fl else 0)
+        step = 8
+        cases = [{"mon": "pow2", "lo": lo, "hi": min(nq, lo + step), "floats": fl} for lo in range(0, nq, step)]
+        chk.pmap(w_pow2, cases, label="2^k+-1 x 2^k+-1, k=0..64")
     if want("unary"):
         chk.pmap(w_unary, [{"mon": "unary", "seed": f"{seed}/unary", "n": chk.pick(3000, 100000)}], label="unary")
     if want("ternary"):
         ab, mpos, mother, absmall = subgrid_ternary()
         cases = [{"mon": "ternary", "part": "pos", "lo": i, "hi": i + 1} for i in range(len(mpos))]
+        cases += [{"mon": "ternary", "part": "neg", "lo": i, "hi": i + 1} for i in range(len(MNEG))]
         cases += [{"mon": "ternary", "part": "other", "lo": i, "hi": i + 1} for i in range(len(mother))]
         nr = chk.pick(4, 60)
         cases += [{"mon": "ternary", "part": "random", "seed": f"{seed}/ter/{i}", "n": 2500} for i in range(nr)]
@@ -668,6 +1001,33 @@ def run(chk):
         hi, step = chk.pick((802, 50), (20002, 250))
         cases = [{"mon": "mulband", "lo": lo, "hi": min(hi, lo + step)} for lo in range(2, hi, step)]
         chk.pmap(w_mulband, cases, label="multiplication band")
+    if want("pownear1"):
+        nb, per = chk.pick((2, 1500), (40, 4000))
+        cases = [{"mon": "pownear1", "seed": f"{seed}/pn1/{i}", "n": per} for i in range(nb)]
+        chk.pmap(w_pownear1, cases, label="powers of 1+-d with huge exponents")
+    if want("touch"):
+        # every operator is, in its own process, the first thing that looks at the operand fields
+        reps = chk.pick(1, 6)
+        cases = []
+        for rep in range(reps):
+            for kind, n in (("bin", 800), ("un", 400), ("ter", 600)):
+                for k in range(len(OPS[kind])):
+                    cases.append({"mon": "touch", "mode": "touch", "kind": kind, "op": k, "cross": rep == 0,
+                                  "seed": f"{seed}/touch/{kind}/{rep}", "n": n})
+        chk.pmap(w_mode, cases, label="first-touch: one operator per process")
+    for mode, nbin in (("json", 1000), ("computed", 1000), ("opassign", 1500), ("literal", 400)):
+        if not want(mode):
+            continue
+        reps = chk.pick(1, 12)
+        cases = []
+        for rep in range(reps):
+            cases.append({"mon": mode, "mode": mode, "kind": "bin", "cross": rep == 0,
+                          "seed": f"{seed}/{mode}/bin/{rep}", "n": nbin})
+            if mode != "opassign":
+                cases.append({"mon": mode, "mode": mode, "kind": "un", "seed": f"{seed}/{mode}/un/{rep}", "n": 300})
+                cases.append({"mon": mode, "mode": mode, "kind": "ter", "cross": rep == 0,
+                              "seed": f"{seed}/{mode}/ter/{rep}", "n": 500})
+        chk.pmap(w_mode, cases, label=f"operands delivered as: {mode}")
     if want("around") and not chk.quick():
         cases = []
         for B in boundaries():
@@ -677,14 +1037,20 @@ def run(chk):
 
     st = chk.stats
     mp = st.pop("max_pow_ulp_distance", None)
+    mr = st.pop("max_pow_ulp_per_unit_exponent", None)
     per_op = {k.split(":", 1)[1]: v for k, v in st.items() if k.startswith("cells:")}
+    per_mode = {k.split(":", 1)[1]: v for k, v in st.items() if k.startswith("cells_mode:")}
     for k in list(st):
-        if k.startswith("cells:"):
+        if k.startswith("cells:") or k.startswith("cells_mode:"):
             del st[k]
     chk.extra["cells_checked"] = st.get("cells", 0)
     chk.extra["cells_per_operator"] = per_op
+    chk.extra["cells_per_delivery"] = per_mode
     chk.extra["operators_covered"] = sorted(per_op)
     chk.extra["cells_where_only_no_crash_is_required"] = st.get("cells_nocrash_only", 0)
-    chk.extra["grid_size"] = {"ints": len(ints), "floats": len(floats)}
+    chk.extra["cells_where_only_float_type_is_required"] = st.get("cells_type_only", 0)
+    chk.extra["times_band_float_for_a_product_that_fits"] = st.get("times_band_float_for_a_product_that_fits", 0)
+    chk.extra["grid_size"] = {"ints": len(ints), "floats": len(floats), "pow2": len(P)}
     chk.extra["max_pow_ulp_distance_observed"] = max(mp) if mp else 0
+    chk.extra["max_pow_ulp_per_unit_exponent_observed"] = max(mr) if mr else 0
     chk.exhaustive = False
